@@ -54,6 +54,12 @@ def run(ck, ctx):
                       "`some other type` edge to the return answers the WRONGTYPE error and nothing else (Redis answers WRONGTYPE for every "
                       "typed command against a key of another type; an empty/zero/nil answer there hides the key). Re-lookups behind a "
                       "deciding type test of the same key, TYPE-style total matches and MGET (nil by Redis semantics) are the only exceptions")
+    ck.rule("R01.17", "a stored counter changes by checked addition only: where a handler combines an integer parsed from a stored value with a "
+                      "client-supplied integer (INCR/DECR/INCRBY/DECRBY, HINCRBY) the sum is i64::checked_add / checked_sub and its None edge "
+                      "answers an error - never a wrapping/saturating/plain `+` (Redis refuses an overflowing increment and leaves the value)")
+    ck.rule("R01.18", "the two indexes of a sorted set change together: in RedisSortedSet every path that stores a score into `members` also inserts "
+                      "(member, score) into the skiplist, and every path that removes a member from `members` removes it from the skiplist - a "
+                      "member present in one index only is returned by ZSCORE but not by ZRANGE/ZRANK (or the reverse)")
     ck.rule("R01.16", "LMOVE's two ends: in the LMOVE handler every call that takes an element out of a stored list is decided by (control- or "
                       "data-dependent on) `wherefrom`, every call that puts one in by `whereto`, and a list mutator that does both by both - also on "
                       "a same-key shortcut (LMOVE k k LEFT LEFT must leave the list as it is, LEFT RIGHT rotates it)")
@@ -72,6 +78,8 @@ def run(ck, ctx):
         _r0114(ck, prog, cfg)
         _r0115(ck, prog, cfg)
         _r0116(ck, prog, cfg)
+        _r0117(ck, prog, cfg, effects.executor_methods(prog))
+        _r0118(ck, prog, cfg)
         meths = effects.executor_methods(prog)
         _r011(ck, prog, cfg, meths)
         _r012(ck, prog, cfg, meths)
@@ -1212,3 +1220,85 @@ def _r0116(ck, prog, cfg):
                      f.where(t["ln"]), detail="depends on " + "+".join(need))
             k += 1
     ck.floor("R01.16" + _tag(cfg), n, 4)
+
+
+# ------------------------------------------------------------------------------------------------
+def _r0117(ck, prog, cfg, meths):
+    n = 0
+    for m, f in _bodies(prog, meths):
+        parsed = [t["dest"]["l"] for b, t in f.calls() if is_callee(t, r"<impl str>::parse::<i64>$") and "p" not in t["dest"]]
+        if not parsed:
+            continue
+        stored = _tainted_locals(f, set(parsed))
+        params = {i for i in range(2, f.d["argc"] + 1) if f.locals[i] == "i64"}
+        if f.kind == "closure":
+            continue
+        client = _tainted_locals(f, params) if params else set()
+        k = 0
+        sites = []
+        for b, t in f.calls():
+            if is_callee(t, r"<impl i64>::(checked|wrapping|saturating|overflowing|unchecked)_(add|sub)$") and len(t["args"]) == 2:
+                sites.append((b, t["ln"], callee(t).rsplit("::", 1)[-1], t["args"], t))
+        for b, i, st in f.stmts():
+            rv = st["rv"]
+            if rv["k"] == "bin" and re.match(r"(Add|Sub)", rv["op"]) and st["lhs"].get("l") is not None and f.locals[st["lhs"]["l"]] in ("i64", "(i64, bool)"):
+                sites.append((b, st["ln"], rv["op"], [rv["a"], rv["b"]], None))
+        for b, ln, op, args, t in sites:
+            ls = [op_local(a) for a in args]
+            if not (any(l in stored for l in ls if l is not None) and (any(l in client for l in ls if l is not None) or any("c" in a for a in args))):
+                continue
+            n += 1
+            good = op in ("checked_add", "checked_sub")
+            why = "uses `%s`" % op
+            if good:
+                # the None edge answers an error
+                good = False
+                why = "does not answer an error when checked arithmetic reports overflow"
+                for sb in sorted(f.reachable_blocks()):
+                    si = switch_info(f, sb)
+                    if si and si["kind"] == "discr" and "p" not in si["place"] and si["place"]["l"] == t["dest"]["l"]:
+                        from .lib import edge_targets
+                        nt = edge_targets(f, sb, 0)
+                        st_ = edge_targets(f, sb, 1)
+                        reg = ({nt} | f.reach([nt], avoid=[sb])) - ({st_} | f.reach([st_], avoid=[sb]))
+                        if any(f.term(x)["k"] == "call" and is_callee(f.term(x), r"RespValue::err(::<.*>)?$") for x in reg):
+                            good = True
+            ck.check(good, "R01.17", "%s:counter-arith#%d%s" % (f.short, k, _tag(cfg)),
+                     "%s combines a stored integer with the client's operand and %s: an increment past i64::MAX/MIN must be refused with the value "
+                     "untouched" % (f.short, why), f.where(ln), detail="checked_add/sub + error on None")
+            k += 1
+    ck.floor("R01.17" + _tag(cfg), n, 2)
+
+
+def _r0118(ck, prog, cfg):
+    n = 0
+    MEM_INS = r"hash_map::(OccupiedEntry|VacantEntry)::<'_, std::string::String, f64>::insert$|HashMap::<std::string::String, f64.*>::insert$"
+    MEM_REM = r"HashMap::<std::string::String, f64.*>::remove(::<.*>)?$|hash_map::OccupiedEntry::<'_, std::string::String, f64>::remove(_entry)?$"
+    for f in prog.lib_fns():
+        if f.impl_self != ZSET or f.kind != "method" or "test" in f.id:
+            continue
+        ins = [(b, t) for b, t in f.calls() if is_callee(t, MEM_INS)]
+        rem = [(b, t) for b, t in f.calls() if is_callee(t, MEM_REM)]
+        sk_ins = {b for b, t in f.calls() if is_callee(t, r"SkipList::insert$")}
+        sk_rem = {b for b, t in f.calls() if is_callee(t, r"SkipList::(remove_with_score|remove|delete)$")}
+        for k, (b, t) in enumerate(ins):
+            n += 1
+            miss = lib2.path_avoiding(f, b, lambda x: f.term(x)["k"] == "return", lambda x: x in sk_ins, (), from_succ=True)
+            ck.check(miss is None and bool(sk_ins), "R01.18", "%s:members-insert#%d%s" % (f.short, k, _tag(cfg)),
+                     "RedisSortedSet::%s stores a score into `members` and can return without inserting the member into the skiplist (path %s)"
+                     % (f.short, (miss or [])[:6]), f.where(t["ln"]), detail="skiplist.insert on every path after members insert")
+        for k, (b, t) in enumerate(rem):
+            n += 1
+            # removal happened = the Some edge of the remove result (or is_some() true edge); accept any path on which skiplist removal follows,
+            # except paths leaving through a `nothing was removed` edge
+            miss = lib2.path_avoiding(f, b, lambda x: f.term(x)["k"] == "return", lambda x: x in sk_rem, (), from_succ=True)
+            feasible = miss
+            if miss is not None:
+                # a path that avoids the skiplist removal must pass a branch on the removal's own result (removed == false / None)
+                res = _tainted_locals(f, {t["dest"]["l"]}) if "p" not in t["dest"] else set()
+                if any(f.term(x)["k"] == "switch" and op_local(f.term(x)["d"]) in res for x in miss):
+                    feasible = None
+            ck.check(feasible is None and bool(sk_rem), "R01.18", "%s:members-remove#%d%s" % (f.short, k, _tag(cfg)),
+                     "RedisSortedSet::%s removes a member from `members` and can return without removing it from the skiplist" % f.short,
+                     f.where(t["ln"]), detail="skiplist removal follows unless nothing was removed")
+    ck.floor("R01.18" + _tag(cfg), n, 3)
